@@ -352,9 +352,9 @@ func c16FermatSchema(c *Ctx, r *Report) {
 			foreign = "big.Int operation outside the modelled set (Sqrt, Add, Sub, Mul, Set, Cmp): " + fr.unknown
 		}
 		// walk the conditions
-		round := 0      // index of the round whose loop test comes next
-		inRound := -1   // round entered and waiting for its perfect-square test
-		hit := -1       // round whose test succeeded
+		round := 0    // index of the round whose loop test comes next
+		inRound := -1 // round entered and waiting for its perfect-square test
+		hit := -1     // round whose test succeeded
 		exhausted := false
 		for _, cd := range o.Conds {
 			t := cd.T
